@@ -299,6 +299,9 @@ inline Structure gen_structure(uint64_t seed, const GenOpt& g) {
           if (wide && r.chance(20)) a.pos.x = r.pick(std::vector<double>{-0.0004, -0.0005, 0.0005, 1.0005, 2.0015, -0.00049, -1.0005, -0.00051});
           if (r.chance(5)) a.pos.x = r.pick(std::vector<double>{0.0, -0.001, 0.001});
           if (wide && r.chance(10)) a.pos.x = r.pick(std::vector<double>{-999.9994, 9999.9994, -999.999, 9999.999});
+          // the same for y and z, each on its own (the other two coordinates stay general)
+          if (wide && r.chance(15)) a.pos.y = r.pick(std::vector<double>{-0.0004, -0.0005, 0.0005, 1.0005, 2.0015, -0.00049, -1.0005, -0.00051, 0.0, -0.001, -999.9994, 9999.9994});
+          if (wide && r.chance(15)) a.pos.z = r.pick(std::vector<double>{-0.0004, -0.0005, 0.0005, 1.0005, 2.0015, -0.00049, -1.0005, -0.00051, 0.0, -0.001, -999.9994, 9999.9994});
           a.occ = r.chance(60) ? 1.0f : float(r.range(0, 100) / 100.);
           a.b_iso = float(r.range(0, 99999) / 100.);
           if (r.chance(5)) a.b_iso = r.pick(std::vector<float>{0.f, 999.99f, 0.01f, 100.f, 20.f});
